@@ -151,6 +151,7 @@ Print Assumptions C11_remove_base_no_lone_empty.
 Theorem C11_text_faithful_reachable_meaning : forall u,
   text_faithful_reachable u = negb (rootless_leading_empty u) && negb (ip4_name u).
 Proof. reflexivity. Qed.
+Print Assumptions C11_text_faithful_reachable_meaning.
 
 Theorem C11_equal_iff_same_text_reachable_partial2 : forall ops ops' i j u v,
   normalize_steps_ok norm_outside_findings empty_store ops -> run empty_store ops i = Some u ->
